@@ -104,7 +104,9 @@ def expected_find(kernel, script):
         return exp
 
 
-def judge_seq(r, script, exp, log):
+def judge_seq(r, script, exp, log, no_stale_data=False):
+    """no_stale_data: a response for which the handler supplied no data set carries none (asserted for the kernels
+    built on ServiceClass._c_find_scp, where only Pending responses carry an Identifier)."""
     if r.escaped is not None:
         return False
     if len(r.sent) != len(exp):
@@ -119,6 +121,8 @@ def judge_seq(r, script, exp, log):
                 same = log.dataset_of(rec.data) is script.data_objs[data_i]
             if not same:
                 return False
+        elif no_stale_data and rec.data is not None:
+            return False
         if res_i is not None and rec.status == script.statuses[res_i] and not _opt_ok(rec, script, res_i):
             return False
     return True
@@ -147,7 +151,7 @@ def c21_find_one(skind: int, status: int, with_ds: bool, raises: bool) -> bool:
                       offending=[True])
     with S.scp_env() as log:
         r = S.run_kernel(k.name, 21, 3, script, log)
-        return judge_seq(r, script, expected_find(k, script), log)
+        return judge_seq(r, script, expected_find(k, script), log, no_stale_data=(k.name != "find_relevant"))
 
 
 @harness(
@@ -169,7 +173,7 @@ def c21_find_seq(skinds: List[int], spool: List[int], dkinds: List[int], raise_a
     script = S.Script(skinds, S.LazyPool(spool, POOL), dkinds, raise_at=raise_at)
     with S.scp_env() as log:
         r = S.run_kernel(k.name, 21, 3, script, log)
-        return judge_seq(r, script, expected_find(k, script), log)
+        return judge_seq(r, script, expected_find(k, script), log, no_stale_data=(k.name != "find_relevant"))
 
 
 # ---------------------------------------------------------------------------------------------
@@ -247,6 +251,37 @@ def c21_n_pair_kinds(skind: int, sp: int, dkind: int, with_opt: bool) -> bool:
     script = S.Script([skind], S.LazyPool([sp], POOL), [dkind], comment=[with_opt])
     with S.scp_env() as log:
         r = S.run_kernel(k.name, 21, 3, script, log)
+        return judge_pair(r, script, k, log)
+
+
+def _drop_instance_uid(req):
+    req.AffectedSOPInstanceUID = None
+
+
+@harness(
+    "C21", timeout=(100, 600), shards=_kshards(tier(["PrintManagement.N_CREATE"], [n for n in S.PAIR_KERNELS if n.endswith("N_CREATE")])),
+    functions=["service_class:ServiceClass._n_create_scp", "service_class:ServiceClass.validate_status"], stubs=STUBS,
+    outside=PAIR_OUTSIDE,
+    bounds="N-CREATE request WITHOUT an Affected SOP Instance UID; handler returns (status, dataset) with the status object of "
+           "every kind, value ANY int 0..65535, dataset in {None, valid (without an AffectedSOPInstanceUID element), "
+           "unencodable}: Success cannot be honoured (PS3.7 10.1.5.1.4: 0x0110, no data), every other status is mapped as for a "
+           "request that carries the UID")
+def c21_n_create_no_uid(skind: int, status: int, dk: int) -> bool:
+    """
+    pre: 0 <= skind <= 3 and 0 <= dk <= 2
+    pre: 0 <= status <= 65535
+    post: _ == True
+    """
+    k = S.KERNELS[shard("kernel", "PrintManagement.N_CREATE")]
+    script = S.Script([skind], [status], [DK3[dk]], comment=[True])
+    with S.scp_env() as log:
+        r = S.run_kernel(k.name, 21, 3, script, log, req_edit=_drop_instance_uid)
+        if r.escaped is not None or len(r.sent) != 1:
+            return False
+        kind = S.SK_NAME[skind]
+        st = D.status_from_handler(k.service, kind, status if kind in ("int", "ds_status") else None)
+        if st == D.SUCCESS:
+            return r.sent[0].status == 0x0110 and r.sent[0].data is None
         return judge_pair(r, script, k, log)
 
 
@@ -417,7 +452,7 @@ def c21_real_status_ds(sp: int, with_comment: bool, with_offending: bool, dk: in
     with S.scp_env() as log:
         if k.style == "find":
             r = S.run_kernel(k.name, 21, 3, script, log)
-            return judge_seq(r, script, expected_find(k, script), log)
+            return judge_seq(r, script, expected_find(k, script), log, no_stale_data=(k.name != "find_relevant"))
         if k.style == "get":
             r = S.run_kernel(k.name, 21, 3, script, log, n_sub=2, outcomes=[S.SUB_SUCCESS])
             return r.escaped is None and [x.status for x in r.sent] == expected_retrieve(k, script, 2, [S.SUB_SUCCESS])
